@@ -31,6 +31,15 @@ pub struct EvaluationDomain<F: Field> {
     barycentric_weight: F,
 }
 
+#[cfg(feature = "verif-hooks")]
+impl<F: WithSmallOrderMulGroup<3>> EvaluationDomain<F> {
+    /// Verification hook (off by default): the `extended_k` that [`Self::new`]
+    /// compares with `F::S`, i.e. the precondition of `new`.
+    pub fn verif_extended_k_for(j: u32, k: u32) -> u32 {
+        Self::extended_k_for(j, k)
+    }
+}
+
 impl<F: WithSmallOrderMulGroup<3>> EvaluationDomain<F> {
     /// Returns the value `extended_k` of the domain built by [`Self::new`] on
     /// `j, k`. The domain exists (i.e. [`Self::new`] does not panic) if and
